@@ -232,7 +232,9 @@ def internalLabels (n : Nat) : List (Lbl V) :=
 def succs [DecidableEq V] (P : Params V) (c : Cfg V) : List (Cfg V) :=
   (internalLabels c.lanes.length).filterMap (step P c)
 
-/-! The driver's exploration (not used by the theorems).  Two economies, both invisible in what is observed:
+/-! The driver's exploration.  It is proved sound (`PipelineSettle.lean`, `C17_pipe_settle_sound`) and complete
+(`PipelineComplete.lean`, `PipelineReduce.lean`, `C17_pipe_settle_complete`): the argument below is the theorem
+`Pipe.diamond`.  Two economies, both invisible in what is observed:
 the ghost `log` is dropped, and in a *calm* state - not cancelled, `Execute` running, no handler and no member
 ended, no failure instruction waiting anywhere - the steps `hStart i` / `hand i` are taken at once when enabled:
 in a calm state no thread of the pipeline can cancel the context or end (that needs a cancelled context, an
